@@ -502,7 +502,7 @@ class InProtocolBase(ProtocolMixin):
             tz = pytz.utc
             retval = _parse_datetime_iso_match(match, tz=tz)
             if astz is not None:
-                retval = retval.astimezone(astz)
+                retval = _astimezone(string, retval, astz)
             return retval
 
         if match is None:
@@ -518,7 +518,7 @@ class InProtocolBase(ProtocolMixin):
                     raise ValidationError(string, "%%r: %r" % (e,))
                 retval = _parse_datetime_iso_match(match, tz=tz)
                 if astz is not None:
-                    retval = retval.astimezone(astz)
+                    retval = _astimezone(string, retval, astz)
                 return retval
 
         if match is None:
@@ -699,11 +699,17 @@ class InProtocolBase(ProtocolMixin):
                 if isinstance(string, six.text_type):
                     string = string.encode('utf8')
 
-            retval = datetime.strptime(string, dt_format)
+            try:
+                retval = datetime.strptime(string, dt_format)
+            except (ValueError, TypeError) as e:
+                raise ValidationError(string, "%%r: %s" % (e,))
 
             astz = cls_attrs.as_timezone
             if astz:
-                retval = retval.astimezone(cls_attrs.as_time_zone)
+                try:
+                    retval = retval.astimezone(astz)
+                except (ValueError, OverflowError) as e:
+                    raise ValidationError(string, "%%r: %s" % (e,))
 
         else:
             retval = self.datetime_from_unicode_iso(cls, string)
@@ -726,6 +732,14 @@ _uuid_deserialize = {
 if six.PY2:
     _uuid_deserialize[None] = lambda s: uuid.UUID(s)
     _uuid_deserialize[('int', long)] = _uuid_deserialize[('int', int)]
+
+
+def _astimezone(string, value, tz):
+    try:
+        return value.astimezone(tz)
+    except (ValueError, OverflowError) as e:
+        # at the edges of the datetime range the converted value does not exist
+        raise ValidationError(string, "%%r: %s" % (e,))
 
 
 def _parse_datetime_iso_match(date_match, tz=None):
